@@ -27,6 +27,11 @@ for _n in ("FileSet.find", "FileSet._get_search_dirs", "FileSet._get_matching_di
            "FileSet.__contains__", "FileSet.__len__", "FileSet.exclude_files", "FileSet.exclude_times", "FileSet._complete_placeholders_regex", "FileSet._add_group_capturing"):
     REG.inline_ok.add(M + _n)
 REG.inline_ok.add("typhon.utils.timeutils:set_time_resolution")
+REG.inline_ok.add(M + "FileSet.__init__")            # (a symbolic time_coverage goes through the constructor and the setter)
+REG.inline_ok.add(M + "FileSet.time_coverage")
+REG.inline_ok.add(M + "FileSet.get_info")
+REG.inline_ok.add("typhon.utils.timeutils:to_datetime")
+REG.inline_ok.add("typhon.utils.timeutils:to_timedelta")
 for _n in ("IntervalTree.interval_overlaps", "IntervalTree.__contains__", "IntervalTree._query", "IntervalTree.interval_contains"):
     REG.inline_ok.add("typhon.trees:" + _n)
 
@@ -237,3 +242,27 @@ def bounded_real_find(rng, tier):
             finally:
                 shutil.rmtree(root, ignore_errors=True)
     return {"evaluations": evals, "distinct_nontrivial": len(distinct), "failures": failures[:5], "samples": samples}
+
+
+# ------------------------------------------------------------------ single-file filesets: the coverage comes from time_coverage
+@theorem(P, "single-file-fileset", c0=_dt("c0", 6), c1=_dt("c1", 6), s=_dt("s", 6), e=_dt("e", 6))
+def thm_single_file(c0, c1, s, e):
+    requires(c0 <= c1, s < e, c0.year >= 1000, c1.year >= 1000, s.year >= 1000, e.year >= 1000)
+    fs = FileSet(path="/data/all_in_one.nc", name="single", time_coverage=(c0, c1))
+    ensures(fs.single_file, id="a path without temporal placeholders is a single-file fileset")
+    fs.file_system = GhostFS(["/data/all_in_one.nc"])
+    found = list(fs.find(s, e, no_files_error=False))
+    hit = c0 < e and c1 >= s
+    ensures(len(found) == (1 if hit else 0), id="the one file is found iff its time_coverage overlaps [start, end)")
+    if hit:
+        ensures(found[0].path == "/data/all_in_one.nc" and found[0].times[0] == c0 and found[0].times[1] == c1,
+                id="... with the coverage given as time_coverage")
+    fs2 = FileSet(path="/data/all_in_one.nc", name="single2", time_coverage=(c0, c1))
+    fs2.file_system = GhostFS(["/data/all_in_one.nc"])
+    raised = expect_raises(NoFilesError, lambda: list(fs2.find(s, e)))
+    ensures(raised == (not hit), id="NoFilesError exactly when the file does not overlap the period")
+    # without time_coverage the single file covers all time
+    fs3 = FileSet(path="/data/all_in_one.nc", name="single3")
+    fs3.file_system = GhostFS(["/data/all_in_one.nc"])
+    all_time = list(fs3.find(s, e, no_files_error=False))
+    ensures(len(all_time) == 1, id="without time_coverage a single file covers every period")
